@@ -21,6 +21,8 @@ import OtterVerif.Conc.RingSkeleton
 import OtterVerif.Gen.Skeleton
 import OtterVerif.Conc.Ring
 import OtterVerif.Conc.Striped
+import OtterVerif.Proofs.LossyGen
+import OtterVerif.Pin.LossySites
 
 namespace OtterVerif.Props.C17
 open OtterVerif.Impl.Ring
@@ -132,5 +134,38 @@ theorem skeleton_Striped_DrainTo : Gen.Skeleton.Striped_DrainTo = Conc.RingSkele
 
 /-! ### Non-vacuity -/
 example : (add (newRing 7) 8).2 = .success ∧ (drainTo (add (newRing 7) 8).1).2 = [7, 8] := by decide
+
+/-! ### The ring and the table of rings, over the regenerated computations of internal/lossy -/
+
+/-- a ring refuses iff sixteen entries wait; producers publish at tail mod 16, the consumer reads head mod 16 -/
+theorem c17_gen_ring (head tail : BitVec 64) (h : head.toNat ≤ tail.toNat) :
+    Gen.LossySites.ring_add_c0 (Gen.LossySites.ring_add_a2 head tail) = decide (tail.toNat - head.toNat ≥ Impl.Ring.bufferSize) ∧
+    (Gen.LossySites.ring_add_x1 tail).toNat = tail.toNat % 16 ∧ (Gen.LossySites.ring_drainTo_a4 head).toNat = head.toNat % 16 ∧
+    Gen.LossySites.ring_add_x0 tail = tail + 1#64 ∧ Gen.LossySites.ring_drainTo_u0 head = head + 1#64 ∧
+    Gen.LossySites.ring_drainTo_c1 head tail = (head != tail) :=
+  ⟨Proofs.LossyGen.ring_full head tail h, (Proofs.LossyGen.ring_slots head tail).1, (Proofs.LossyGen.ring_slots head tail).2.1,
+   (Proofs.LossyGen.ring_slots head tail).2.2.1, (Proofs.LossyGen.ring_slots head tail).2.2.2, (Proofs.LossyGen.ring_drain_guards head tail).2⟩
+
+/-- the buffer's capacity is fixed: the table of rings is doubled only while shorter than its maximum, so with powers of two
+    it never exceeds the maximum; a stripe index always lies inside the table -/
+theorem c17_gen_table_bounded (len maxLen : BitVec 64) (stale : Bool) (a b : Nat) (hlen : len.toNat = 2 ^ a) (hmax : maxLen.toNat = 2 ^ b)
+    (hb : b ≤ 31) (ha : a ≤ 31) (h : Gen.LossySites.Striped_expandOrRetry_c9 len maxLen stale = false) (idx : BitVec 32) :
+    (Gen.LossySites.Striped_expandOrRetry_a15 len).toNat = 2 * len.toNat ∧
+    (Gen.LossySites.Striped_expandOrRetry_a15 len).toNat ≤ maxLen.toNat ∧
+    (Gen.LossySites.Striped_Add_x0 len idx).toNat < len.toNat :=
+  ⟨(Proofs.LossyGen.grow_within_max len maxLen stale a b hlen hmax hb ha h).1,
+   (Proofs.LossyGen.grow_within_max len maxLen stale a b hlen hmax hb ha h).2,
+   (Proofs.LossyGen.stripe_in_range len idx a ha hlen).2.1⟩
+
+/-- growing the table carries EVERY ring over (the copy loop starts at stripe 0, runs while below the old length, advances by
+    one), and DrainTo walks every stripe the same way: an entry recorded in any ring is delivered -/
+theorem c17_gen_every_stripe (len j : BitVec 64) (hl : len.toNat < 2 ^ 62) (hj : j.toNat < 2 ^ 62) :
+    Gen.LossySites.Striped_expandOrRetry_a17 = 0#64 ∧
+    Gen.LossySites.Striped_expandOrRetry_c13 len j = decide (j.toNat < len.toNat) ∧
+    Gen.LossySites.Striped_expandOrRetry_u1 j = j + 1#64 ∧
+    Gen.LossySites.Striped_DrainTo_a1 = 0#64 ∧ Gen.LossySites.Striped_DrainTo_c1 len j = decide (j.toNat < len.toNat) ∧
+    Gen.LossySites.Striped_DrainTo_u0 j = j + 1#64 :=
+  Proofs.LossyGen.walk_all_stripes len j hl hj
+
 
 end OtterVerif.Props.C17
